@@ -215,29 +215,54 @@ def probes(shapes):
     return out
 
 
+def warm_up():
+    """import pytket / sympy / tket once in the parent so that the forked workers inherit them"""
+    sh = {"q": [["q", 1]], "c": []}
+    q_pytket.run_case({"key": "warm", "shape": sh, "ops": [{"g": "h", "qs": [0], "a": [], "bit": -1, "b": -1}],
+                       "nparams": 0, "prep": [], "force": {}, "validate": False})
+
+
 def run(ctx):
     ctx.level = "model_checking"
+    warm_up()
     viol, stats = {}, {"evaluations": 0, "circuits": 0, "signatures": 0, "sig_accept": 0}
-    prep, shapes, cases, stubs = tlc_enum(ctx, "Pytket.cfg")
+    prep, shapes, cases, stubs = tlc_enum(ctx, ctx.pick("Pytket.cfg", "Pytket.cfg"))
+    ctx.log(f"TLC enumerated {len(cases)} circuits, {len(stubs)} signature reports")
     if len(stubs) != 3 * len(shapes) or not cases:
         raise lib.Machinery(f"Pytket enum incomplete: {len(cases)} circuits, {len(stubs)} signature reports")
-    if ctx.quick:  # every operation of every shape once; both outcomes of measurements
+    if ctx.quick:
+        # every layout x gate x qubit assignment, measurements with both outcomes; of the 8 angle
+        # variants of a rotation one (crz: two) per assignment, cycling through the variants
         rng0 = random.Random(ctx.seed + 26)
-        keep = [c for c in cases if not c["ops"] or c["ops"][0]["g"] in ("measure", "reset", "crz", "toffoli", "cx")
-                or rng0.random() < 0.35]
+        groups = {}
+        for c in cases:
+            o = c["ops"][0] if c["ops"] else None
+            k = (c["shape"],) if o is None else (c["shape"], o["g"], tuple(o["qs"]), o["bit"], o["b"])
+            groups.setdefault(k, []).append(c)
+        keep, n = [], rng0.randrange(8)
+        for k in sorted(groups):
+            g = sorted(groups[k], key=lambda c: json.dumps(c["ops"], sort_keys=True))
+            if len(g) == 1:
+                keep += g
+            else:
+                for _ in range(2 if k[1] == "crz" else 1):
+                    keep.append(g[n % len(g)])
+                    n += 3
     else:
         keep = cases
     check_circuits(ctx, prep, shapes, keep, viol, stats)
     ctx.log(f"enumerated circuits: {len(keep)} of {len(cases)} replayed, findings {len(viol)}")
     check_sigs(ctx, shapes, stubs, viol, stats)
+    ctx.log(f"signatures checked: {stats['signatures']}")
     # longer circuits sampled over the enumerated operations, expectation from TLC
     alphabet = [[] for _ in shapes]
     for c in cases:
         if len(c["ops"]) == 1:
             alphabet[c["shape"] - 1].append(c["ops"][0])
     rng = random.Random(ctx.seed * 104729 + 26)
-    sampled = probes(shapes) + sample(rng, shapes, alphabet, ctx.pick(120, 2500), ctx.pick(4, 4))
+    sampled = probes(shapes) + sample(rng, shapes, alphabet, ctx.pick(80, 2500), ctx.pick(4, 4))
     expect = tlc_cases(ctx, sampled)
+    ctx.log(f"TLC evaluated {len(sampled)} sampled circuits: {len(expect)} branches")
     # one measurement branch per sampled circuit (chosen by the seed), all branches in thorough
     by_cid = {}
     for e in expect:
@@ -301,6 +326,7 @@ def replay(ctx, data):
 
 def selftest(ctx):
     ctx.tier = "quick"
+    warm_up()
     prep, shapes, cases, stubs = tlc_enum(ctx, "Pytket_self.cfg")
     pick = {}
     for c in cases:
